@@ -152,9 +152,15 @@ fn consolidate_pass_lines(
             continue;
         }
 
-        line.parent = line.parent.map(|parent| LineParent {
-            line_index: mapped_line_indices[parent.line_index],
-            global_token_index: parent.global_token_index,
+        // A parent that has not been seen yet (e.g. a line that was made its own parent by
+        // malformed input) cannot be remapped; such a line is treated as having no parent.
+        line.parent = line.parent.and_then(|parent| {
+            mapped_line_indices
+                .get(parent.line_index)
+                .map(|&line_index| LineParent {
+                    line_index,
+                    global_token_index: parent.global_token_index,
+                })
         });
 
         let new_line_index = result_lines.len();
